@@ -237,9 +237,9 @@ Section P2.
   Section Nodes.
     Variable Q : snode -> bool.
     Notation fdict := (dict_filter V falsy cf).
-    Notation pre := (dict_pre V).
-    Notation skip := (as_instance V).
-    Notation post := (dict_post V).
+    Notation pre := (dict_pre V cf).
+    Notation skip := (as_instance V cf).
+    Notation post := (dict_post V cf).
     Hypothesis Hpre : forall m, Q m = true -> pre m = None.
     Hypothesis Hskip : forall m, Q m = true -> skip m = false.
     Hypothesis Hpost : forall m ch asr, Q m = true -> post m ch asr = rebuild_same V m ch asr.
